@@ -311,6 +311,19 @@ func cmdCheck(args []string) {
 	known := loadKnown()
 	var inconclusive []string
 	var newVios []*Violation
+	var staticVios []Violation
+	staticSites := 0
+	var staticDescr []string
+	if *prop == "C08" {
+		var serr error
+		staticVios, staticSites, staticDescr, serr = p.checkCastSites("z3", cfg.SolverTimeoutMs)
+		if serr != nil {
+			inconclusive = append(inconclusive, "static cast analysis: "+serr.Error())
+		}
+		if staticSites == 0 {
+			inconclusive = append(inconclusive, "static cast analysis found no conversion site (vacuous)")
+		}
+	}
 	var knownFired []string
 	states, transitions, domDec, solDec := 0, 0, 0, 0
 	var totalSteps int64
@@ -464,6 +477,22 @@ func cmdCheck(args []string) {
 		}
 	}
 
+	// static obligations (C08): decided exactly from the layouts, nothing to replay
+	for i := range staticVios {
+		v := &staticVios[i]
+		if kf := matchKnown(known, *prop, v.Harness, v.ID); kf != nil {
+			knownFired = append(knownFired, fmt.Sprintf("KNOWN-FINDING: property=%s %s/%s %s", *prop, v.Harness, v.ID, kf.What))
+			continue
+		}
+		rf := ReplayFile{Property: *prop, Harness: v.Harness, Assert: v.ID, Kind: v.Kind, Detail: v.Detail}
+		path := filepath.Join(verifDir, "replays", *prop, safeName.ReplaceAllString(v.Harness+"__"+v.ID, "_")+".json")
+		rf.Cmd = "/verif/bin/gosx check -prop C08"
+		data, _ := json.MarshalIndent(&rf, "", " ")
+		os.WriteFile(path, data, 0o644)
+		reportLines = append(reportLines, fmt.Sprintf("VIOLATION property=%s replay=%s", *prop, path))
+		reportLines = append(reportLines, fmt.Sprintf("  %s/%s [static] %s", v.Harness, v.ID, v.Detail))
+		exitCode = 1
+	}
 	wall := time.Since(t0).Seconds()
 	// 4. report
 	sort.Strings(knownFired)
@@ -529,6 +558,8 @@ func cmdCheck(args []string) {
 			"vacuity_witnesses":             vacuity,
 			"twins_violated":                twinsViolated,
 			"known_findings_fired":          knownFired,
+			"static_cast_sites":             staticSites,
+			"static_cast_obligations":       staticDescr,
 			"exhaustive":                    false,
 			"evaluations":                   states,
 			"distinct_nontrivial":           states,
